@@ -15,10 +15,72 @@ import (
 	"verifsim/simrt"
 )
 
-type (
-	Locker = sync.Locker
-	Pool   = sync.Pool
-)
+type Locker = sync.Locker
+
+// Pool is a simulated sync.Pool.  The real one keeps per-P caches and is emptied by the garbage
+// collector, so which Get reuses which Put depends on the runtime - a run would not replay.
+// Inside a simulation the pooled items live in a plain list that belongs to the current run
+// (items left by an earlier run are forgotten, as after a GC) and the tape decides whether a Get
+// reuses an item, which one, or finds the pool empty (sync.Pool may drop anything at any time,
+// so all of these are legal); draw value 0 is "reuse the most recently put item".  Outside a
+// simulation it is the real pool.
+type Pool struct {
+	New func() any
+
+	real  sync.Pool
+	mu    sync.Mutex
+	owner *simrt.Sim
+	items []any
+}
+
+func (p *Pool) Get() any {
+	s := simrt.Current()
+	if s == nil {
+		if x := p.real.Get(); x != nil {
+			return x
+		}
+		if p.New != nil {
+			return p.New()
+		}
+		return nil
+	}
+	simrt.Pre("Pool.Get")
+	p.mu.Lock()
+	if p.owner != s {
+		p.owner, p.items = s, nil
+	}
+	var x any
+	if n := len(p.items); n > 0 {
+		if d := s.DrawLocked(n + 1); d < n {
+			i := n - 1 - d
+			x = p.items[i]
+			p.items = append(p.items[:i], p.items[i+1:]...)
+		}
+	}
+	p.mu.Unlock()
+	if x == nil && p.New != nil {
+		x = p.New()
+	}
+	return x
+}
+
+func (p *Pool) Put(x any) {
+	if x == nil {
+		return
+	}
+	s := simrt.Current()
+	if s == nil {
+		p.real.Put(x)
+		return
+	}
+	simrt.Pre("Pool.Put")
+	p.mu.Lock()
+	if p.owner != s {
+		p.owner, p.items = s, nil
+	}
+	p.items = append(p.items, x)
+	p.mu.Unlock()
+}
 
 // Mutex is a simulated sync.Mutex.
 type Mutex struct {
